@@ -131,7 +131,20 @@ pub fn observe(ctx: &Ctx, st: &mut Stats, job: &Job) {
 
 pub fn run(ctx: &Ctx) -> Report {
     let jobs = jobs(ctx);
-    let st = pool::run(&jobs, ctx.remaining(), |st, job, _| observe(ctx, st, job));
+    let st = pool::run(&jobs, ctx.remaining(), |st, job, i| {
+        observe(ctx, st, job);
+        // every fifth job is followed, on the same thread, by a sibling: same payload, one option changed
+        if i % 5 == 0 {
+            if let Some(sib) = job.sibling(&ctx.caps) {
+                let before = st.violations.len();
+                observe(ctx, st, &sib);
+                st.count("sibling_builds_same_payload_other_option", 1);
+                for v in &mut st.violations[before..] {
+                    v.detail = format!("{} (sibling run: same payload as the job before it on this thread, one option changed; the fault may depend on that history)", v.detail);
+                }
+            }
+        }
+    });
     let mut rep = Report::new(
         st,
         "jobs = every (version, level, forced mask) cell (1280, enumerated completely) x {capacity-filling, empty} payloads (thorough: + random lengths over 7 payload generators), + automatic-mask/automatic-version builds per (version, level), + big-then-small build sequences on one thread; every finder/separator/timing/alignment/dark-module coordinate of the result is compared with the oracle region map built from ISO 6.3 + Annex E, and every element of the backing array beyond size^2 with the default module; distinct key = (options, len, payload hash); every case is non-trivial (a full symbol is inspected)",
